@@ -8,7 +8,14 @@ class P(vlib.Prop):
             "first case = replay of fixed defect 4f724ff (residue 0); every bundle is re-read with archive/tar to its end, every digest/size/diff-id is recomputed "
             "(EXPLORATION, reported as IMPL-VIOLATION lines), and (pos,size,observed append offset, per-image inclusion) go to Coq; "
             "artifacts stage: image tarballs and OCI layouts re-read and re-hashed (EXPLORATION), generated indexes over architecture subsets compared with the model; "
-            "config stage: generated ImageConfigurations through oci.BuildImageFromLayer(s), config JSON read back, compared with the model and judged by the validator inside Coq. "
+            "config stage: generated ImageConfigurations (optionally through ImageConfiguration.Validate first, as build.New does; 0-7 layers; creation times in UTC, with zones and "
+            "fractions, at the ends of and beyond the serialisable range) through oci.BuildImageFromLayer(s); config JSON incl. the created text and the history read back, compared "
+            "with the model (splitter and time printers modelled) and judged by the validators inside Coq; "
+            "scan stage: archives written by archive/tar (USTAR/PAX/GNU, extension and global headers, header-only members, hand-patched out-of-envelope archives) and real BuildIndex "
+            "bundles: raw block walk vs the standard reader on the *os.File vs the model of its position bookkeeping; "
+            "time stage: real Format(RFC3339)/MarshalJSON/Parse vs the model and the Spec's parser on corner seconds (epoch, leap days, century rules, month and year boundaries, "
+            "both ends of years 0..9999 and beyond, zones, fractions) and seeded ones; shlex stage: real shlex.Split vs the model on hand-picked command lines (quotes, escapes, "
+            "comments, unterminated quotes, invalid UTF-8), seeded strings over a quoting alphabet, plain strings and single-quoted word lists. "
             "A case is non-trivial unless marked; distinct = distinct inputs.")
     stages = (
         dict(name="bundle", cmd="c12", args=lambda t, s: ["-stage", "bundle"]),
@@ -20,23 +27,32 @@ class P(vlib.Prop):
     )
     assumptions = (
         "descriptor digests/sizes, diff-ids, JSON and tar encodings are computed by go-containerregistry / cosign / archive/tar and are outside the model: they are re-read and recomputed by the harness (exploration, not proof)",
-        "shlex.Split and time.Format(RFC3339) are Section variables of the model; the correspondence instantiates them with the results of the real functions on the strings of each case",
-        "Go map iteration order is an explicit permutation parameter quantified in c12_env / c12_index / c12_config_mapping",
-        "int64 arithmetic in BuildIndex is modelled on Z; c12_append_offset bounds the result by pos+size+512, so no wrap-around below 2^63-512",
+        "github.com/google/shlex Split (version pinned in go.mod) and Go 1.23's time.Time.Format(RFC3339)/MarshalJSON are MODELLED (Model/OciShlex.v, Model/OciTime.v) from their sources by hand; the models are compared with the real functions on every run (stages shlex, time, config: mismatch:shlex, mismatch:rfc3339, mismatch:rfc3339-json); the theorems about them quantify over all strings / all second counts",
+        "archive/tar's Reader.Next position bookkeeping per record kind (member with data, header-only member, PAX x / GNU L,K extension record, PAX global header; sparse members out of scope) is modelled by hand (Model/Oci.v rd_next) and compared with the real reader placed unbuffered on an *os.File (stage scan); c12_append_offset_scan assumes the stream ends with a member whose data is what hdr.Size says (EndsOk) - MultiWrite writes regular files only",
+        "Go map iteration order is an explicit permutation parameter quantified in c12_env / c12_index / c12_config_mapping / c12_image_mapping",
+        "int64 arithmetic in BuildIndex is modelled on Z; c12_append_offset bounds the result by pos+size+512, so no wrap-around below 2^63-512; Unix seconds are unbounded Z in the time model (compared with Go up to |sec| = 2^62)",
         "the bytes between the end of manifest.json and the append offset are the zero padding go-containerregistry's tar writer already wrote (BuildIndex seeks back over the end-of-archive marker); the harness observes the first non-zero byte after manifest.json, also over a stale longer output file",
+        "c12_image_mapping covers creation times of the form time.Unix(sec, 0).UTC() (SOURCE_DATE_EPOCH, the default, package build times); a --build-date with a zone offset or a fraction is covered by the model and the correspondence only",
     )
-    level_text = ("Theorems about an executable model of the OCI emitters' own logic, whose constants, tables and append-offset arithmetic are regenerated from "
-                  "index.go / image.go / types.go on every run: c12_append_offset (for all positions and sizes the offset BuildIndex seeks to is the least multiple of 512 "
-                  "at or after the end of the last member), c12_env, c12_config_mapping, c12_platform_table (whole generated switch tables), c12_index (for every map "
-                  "iteration order). Two full statements are proved under a source fact that goextract re-reads on every run and that is false today, refuted while it is false, "
-                  "and accompanied by an unconditional partial theorem: c12_bundle_complete (BuildIndex's tag key ignores Platform.Variant, finding C12-F1: arm/v6 is dropped "
-                  "when arm/v7 is present) and c12_config_mapping (the MergeInto copy drops VCSUrl, finding C12-F2: source/revision labels never written). The model is tied to the code by differential comparison on real BuildIndex / BuildImageFromLayers / GenerateIndex runs.")
-    level_note = ("trusted: Coq kernel, goextract, Go harness/printer; modelled not verified: Go text of BuildIndex/BuildImageFromLayers/generateIndexWithMediaType; "
-                  "EXPLORATION only (not proof): byte-level well-formedness — tar readability, sha256/size of every descriptor, config diff-ids vs layers, produced by "
-                  "go-containerregistry/cosign/archive/tar — re-read and recomputed by the harness over a sweep of manifest.json lengths mod 512; shlex and RFC3339 formatting are oracles")
+    level_text = ("Theorems about an executable model of the OCI emitters' own logic, whose constants, tables, append-offset arithmetic and scan-loop statements are regenerated from "
+                  "index.go / image.go / types.go / image_configuration.go on every run: c12_append_offset (for all positions and sizes the offset BuildIndex seeks to is the least multiple of 512 "
+                  "at or after the end of the last member), c12_reader_position + c12_append_offset_scan (for every tar stream of header records archive/tar accepts, the reader's file offset after "
+                  "each Next() is the start of that member's body, hence the scan loop + arithmetic yield the first end-of-archive block), c12_env, c12_config_mapping (+ _partial/_refuted, full "
+                  "since fix b1a922a), c12_platform_table (whole generated switch tables), c12_index (every map iteration order), c12_bundle_complete (full since fix 5bbacb4). New in this "
+                  "round, with the former oracles modelled: c12_civil_date (for every day count the printed year/month/day is the valid Gregorian date with that day number), "
+                  "c12_rfc3339_roundtrip / _monotone (for every second count in years 0..9999 the created text denotes exactly that instant, has the 20-character shape, and text order = "
+                  "time order), c12_rfc3339_out_of_range (outside: MarshalJSON refuses exactly those, witnesses for shape/order), c12_shlex_plain / _quote_roundtrip / _errors (token list = "
+                  "fields for unquoted command lines; any word list survives single-quoting; unterminated quotes fail), c12_image_mapping (Validate's service-bundle rewrite, entrypoint/cmd "
+                  "are the model's token lists, created field + label + one history entry per layer denote the creation time, base history kept), c12_image_unserialisable_time. "
+                  "The model is tied to the code by differential comparison on real BuildIndex / BuildImageFromLayers / GenerateIndex / archive/tar / shlex / time runs.")
+    level_note = ("trusted: Coq kernel, goextract, Go harness/printer; modelled not verified: Go text of BuildIndex/BuildImageFromLayers/generateIndexWithMediaType/Validate, shlex's tokenizer, "
+                  "time's RFC3339 printers, archive/tar's Reader.next bookkeeping (all compared with the real code on every run); "
+                  "EXPLORATION only (not proof): byte-level well-formedness - tar readability, sha256/size of every descriptor, config diff-ids vs layers, produced by "
+                  "go-containerregistry/cosign/archive/tar - re-read and recomputed by the harness over a sweep of manifest.json lengths mod 512")
     design_ref = "DESIGN.md 7 C12"
-    modelled_not_verified = ("BuildIndex's offset arithmetic is translated statement by statement by goextract (Base/C12Lib.stmt), the rest of BuildIndex, BuildImageFromLayers, "
-                             "generateIndexWithMediaType, ParseArchitecture/ToAPK/ToOCIPlatform control flow is modelled by hand (Model/Oci.v) over generated tables; "
-                             "go-containerregistry, cosign, archive/tar, encoding/json, shlex are exercised by the harness only")
+    modelled_not_verified = ("BuildIndex's offset arithmetic and scan-loop body are translated statement by statement by goextract (Base/C12Lib.stmt / scan_op), the rest of BuildIndex, "
+                             "BuildImageFromLayers, Validate, generateIndexWithMediaType, ParseArchitecture/ToAPK/ToOCIPlatform control flow is modelled by hand (Model/Oci.v, Model/OciImage.v) over "
+                             "generated tables and literals; shlex.Split (Model/OciShlex.v), time's RFC3339 printers (Model/OciTime.v) and archive/tar's Next() position bookkeeping (rd_next) are "
+                             "hand models of library code; go-containerregistry, cosign, encoding/json and the byte level of archive/tar are exercised by the harness only")
 
 PROP = P()
